@@ -37,9 +37,10 @@ def strat(tier):
                     st.sampled_from([1.1, 1.2, 1.4, 5.0 / 3.0, 2.0]), st.sampled_from(["hlle", "hllc"]), _ln(), _ln(), _mach())
     sw = st.builds(lambda g, fl, h, m: (dict(name="shallowwater", g=g), fl, dict(lnh=h, froude=m)),
                    st.one_of(st.just(9.81), gen.logf(-1, 2)), st.sampled_from(["rusanov", "hll"]), _ln(), _mach())
-    return st.builds(lambda mf, n, L, bc, integ, c, ns: dict(model=mf[0], flux=mf[1], state=mf[2], mesh=dict(kind="uni", n=n, length=L, x0=0.0), num=dict(name="extrapol1"),
-                                                             bcL={"type": bc}, bcR={"type": bc}, integ=integ, cfl=c, nsteps=ns),
-                     st.one_of(eul, eul, sw), st.integers(2, nmax), gen.logf(-1, 1), st.sampled_from(["per", "sym"]), st.sampled_from(SSP), cfl, st.integers(12, smax))
+    return st.builds(lambda mf, n, L, bc, integ, c, ns, un: dict(model=mf[0], flux=mf[1], state=mf[2], mesh=dict(kind="uni", n=n, length=L, x0=0.0), num=dict(name="extrapol1"),
+                                                                 bcL={"type": bc}, bcR={"type": bc}, integ=integ, cfl=c, nsteps=ns, units=un),
+                     st.one_of(eul, eul, sw), st.integers(2, nmax), st.one_of(gen.logf(-1, 1), gen.logf(-1, 1), gen.logf(-9, 4)), st.sampled_from(["per", "sym"]), st.sampled_from(SSP), cfl, st.integers(12, smax),
+                     sim.units_strategy())
 
 
 def check(case):
